@@ -154,6 +154,10 @@ type Elem struct {
 	BD   int    `json:"bd,omitempty"`   // emitted body length = natural length + BD (clamped at 0)
 	Seed uint64 `json:"seed,omitempty"` // content
 	Dir  bool   `json:"dir,omitempty"`  // entries: directory mode instead of regular file
+	// Term: string-carrying elements (kString, kACLName): "" = body ends in NUL as the format demands; "none" = the
+	// terminator is replaced by a letter (no NUL in the body); "inner" = the terminator is replaced by a letter and a NUL
+	// sits in the middle of the body (for XATTR, which has one there anyway: just the terminator replaced)
+	Term string `json:"term,omitempty"`
 }
 
 func le(v ...uint64) []byte {
@@ -183,8 +187,42 @@ func printable(n int, seed uint64) []byte {
 	return b
 }
 
-// natural returns the well-formed body of e.
+// natural returns the body of e: well-formed, except for the terminator when e.Term says so.
 func natural(d *domain, e Elem) []byte {
+	b := natural0(d, e)
+	ti := d.info(e)
+	if e.Term == "" || (ti.kind != kString && ti.kind != kACLName) {
+		return b
+	}
+	lo := 0
+	if ti.kind == kACLName {
+		lo = 16
+	}
+	if len(b)-lo < 2 {
+		return b
+	}
+	b = append([]byte(nil), b...)
+	b[len(b)-1] = 'z'
+	if e.Term == "inner" {
+		b[lo+(len(b)-1-lo)/2] = 0
+	}
+	return b
+}
+
+// unterminated says whether e was built with a broken string terminator.
+func unterminated(d *domain, e Elem) bool {
+	ti := d.info(e)
+	if e.Term == "" || (ti.kind != kString && ti.kind != kACLName) {
+		return false
+	}
+	lo := 0
+	if ti.kind == kACLName {
+		lo = 16
+	}
+	return len(natural0(d, e))-lo >= 2
+}
+
+func natural0(d *domain, e Elem) []byte {
 	ti := d.info(e)
 	n := clampN(e.N, 20000)
 	switch ti.name {
@@ -390,6 +428,10 @@ func classifyStream(target string, d *domain, es []Elem, encs [][]byte, sizes []
 		}
 		if ti.kind == kGoodbye && e.BD != 0 {
 			return known{}
+		}
+		if !generic && e.BD == 0 && unterminated(d, e) {
+			// a string body that does not end in NUL (with or without a NUL further in front)
+			return known{Malformed: true, What: "unterminated:" + ti.name + ":" + e.Term, OKBefore: i}
 		}
 		pos += len(encs[i])
 	}
